@@ -344,7 +344,10 @@ template<class P> struct isa {
   static m128i castpd_si128(m128d a) { m128i r; std::memcpy((void*)&r, &a, sizeof(m128d) < sizeof(m128i) ? sizeof(m128d) : sizeof(m128i)); return r; }
 
   // ------------------------------------------------------------ __m128i
-  static m128i set_epi32(int e3, int e2, int e1, int e0) { m128i r; r.f[0] = kbits((uint32_t)e0); r.f[1] = kbits((uint32_t)e1); r.f[2] = kbits((uint32_t)e2); r.f[3] = kbits((uint32_t)e3); return r; }
+  // a C++ int handed to an intrinsic becomes a literal lane -- unless the policy recognises it as something glm's
+  // generic code computed from lane handles (integer-typed traces; see policy_sym.hpp), which is poison
+  static W from_cxx_int(uint32_t b) { if (P::suspicious_int(b)) return poison("a C++ int computed from lane handles (generic per-component code on an aligned integer vector) was passed to an intrinsic"); return kbits(b); }
+  static m128i set_epi32(int e3, int e2, int e1, int e0) { m128i r; r.f[0] = from_cxx_int((uint32_t)e0); r.f[1] = from_cxx_int((uint32_t)e1); r.f[2] = from_cxx_int((uint32_t)e2); r.f[3] = from_cxx_int((uint32_t)e3); return r; }
   static m128i setr_epi32(int e0, int e1, int e2, int e3) { return set_epi32(e3, e2, e1, e0); }
   static m128i set1_epi32(int a) { return set_epi32(a, a, a, a); }
   static m128i set1_epi64x(long long a) { return set_epi32((int)((unsigned long long)a >> 32), (int)a, (int)((unsigned long long)a >> 32), (int)a); }
@@ -470,10 +473,12 @@ template<class P> struct isa {
   static m128d loadu_pd(D const* p) { m128d r; std::memcpy((void*)&r, p, sizeof r); return r; }
   static void storeu_pd(D* p, m128d a) { std::memcpy((void*)p, &a, sizeof a); }
   static void store_sd(D* p, m128d a) { std::memcpy((void*)p, &a, sizeof(D)); }
-  static m128d add_pd(m128d a, m128d b) { return set_pd(a.d[1] + b.d[1], a.d[0] + b.d[0]); }
-  static m128d sub_pd(m128d a, m128d b) { return set_pd(a.d[1] - b.d[1], a.d[0] - b.d[0]); }
-  static m128d mul_pd(m128d a, m128d b) { return set_pd(a.d[1] * b.d[1], a.d[0] * b.d[0]); }
-  static m128d div_pd(m128d a, m128d b) { return set_pd(a.d[1] / b.d[1], a.d[0] / b.d[0]); }
+  // arithmetic goes through the policy (P::d_add …) so that a poisoned lane (e.g. the never-written 4th lane of an
+  // aligned dvec3) propagates instead of failing the unit
+  static m128d add_pd(m128d a, m128d b) { return set_pd(P::d_add(a.d[1], b.d[1]), P::d_add(a.d[0], b.d[0])); }
+  static m128d sub_pd(m128d a, m128d b) { return set_pd(P::d_sub(a.d[1], b.d[1]), P::d_sub(a.d[0], b.d[0])); }
+  static m128d mul_pd(m128d a, m128d b) { return set_pd(P::d_mul(a.d[1], b.d[1]), P::d_mul(a.d[0], b.d[0])); }
+  static m128d div_pd(m128d a, m128d b) { return set_pd(P::d_div(a.d[1], b.d[1]), P::d_div(a.d[0], b.d[0])); }
   static m128d shuffle_pd(m128d a, m128d b, int imm) { m128d r; r.d[0] = a.d[imm & 1]; r.d[1] = b.d[(imm >> 1) & 1]; return r; }
   static m256d set_pd256(D e3, D e2, D e1, D e0) { m256d r; r.d[0] = e0; r.d[1] = e1; r.d[2] = e2; r.d[3] = e3; return r; }
   static m256d setr_pd256(D e0, D e1, D e2, D e3) { return set_pd256(e3, e2, e1, e0); }
@@ -481,9 +486,10 @@ template<class P> struct isa {
   static m256d setzero_pd256() { return set1_pd256(D(0.0)); }
   static m256d loadu_pd256(D const* p) { m256d r; std::memcpy((void*)&r, p, sizeof r); return r; }
   static void storeu_pd256(D* p, m256d a) { std::memcpy((void*)p, &a, sizeof a); }
-#define FKI_PD(name, op) static m256d name##_pd256(m256d a, m256d b) { m256d r; for (int i = 0; i < 4; ++i) r.d[i] = a.d[i] op b.d[i]; return r; }
-  FKI_PD(add, +) FKI_PD(sub, -) FKI_PD(mul, *) FKI_PD(div, /)
+#define FKI_PD(name) static m256d name##_pd256(m256d a, m256d b) { m256d r; for (int i = 0; i < 4; ++i) r.d[i] = P::d_##name(a.d[i], b.d[i]); return r; }
+  FKI_PD(add) FKI_PD(sub) FKI_PD(mul) FKI_PD(div)
 #undef FKI_PD
+  static m256d fmadd_pd256(m256d a, m256d b, m256d c) { m256d r; for (int i = 0; i < 4; ++i) r.d[i] = P::d_fma(a.d[i], b.d[i], c.d[i]); return r; }
   static m256d blend_pd256(m256d a, m256d b, int imm) { m256d r; for (int i = 0; i < 4; ++i) r.d[i] = (imm & (1 << i)) ? b.d[i] : a.d[i]; return r; }
   static m256d permute_pd256(m256d a, int imm) { m256d r; r.d[0] = a.d[imm & 1]; r.d[1] = a.d[(imm >> 1) & 1]; r.d[2] = a.d[2 + ((imm >> 2) & 1)]; r.d[3] = a.d[2 + ((imm >> 3) & 1)]; return r; }
   static m256d permute4x64_pd(m256d a, int imm) { m256d r; for (int i = 0; i < 4; ++i) r.d[i] = a.d[(imm >> (2 * i)) & 3]; return r; }
